@@ -2,6 +2,7 @@
 package c17
 
 import (
+	"encoding/json"
 	"fmt"
 	"testing"
 
@@ -500,7 +501,10 @@ func TestLattice(t *testing.T) {
 			return
 		}
 		cc := *c
+		cj, _ := json.Marshal(&cc)
+		clear := core.MarkPending(ID, cj)
 		o := Check(&cc)
+		clear()
 		if o.Fail != nil {
 			core.Eval(t, ID, "exhaustive", &cc, Check)
 		}
